@@ -350,9 +350,10 @@ example : truthy (realEnv.defaults kUA) = false ∧ (parse realEnv []).isSome = 
     ([(k! "use_annotated", k! "True"), (kOMT, k! "typing.TypedDict")] : OptMap).lookup kOMT ≠ some msgspec := by
   decide +kernel
 
-/-- REFUTATION (finding D22): the validators run on the command-line part alone, so an option set
+/-- REFUTATION (known finding C18-split): the validators run on the command-line part alone, so an option set
 that is accepted when given in one place is rejected when split between pyproject.toml and the
-command line — and a combination the validators reject is accepted when split the other way. -/
+command line — and a combination the validators reject is accepted when split the other way.
+(The label "D22" this comment once carried belongs to C07's special-prefix finding, which is repaired and unrelated.) -/
 theorem split_supply_disagrees :
     (merge realEnv [] [(k! "snake_case_field", some k! "True"), (k! "original_field_name_delimiter", some k! " ")]).isSome = true ∧
     (merge realEnv [(k! "snake_case_field", k! "True")] [(k! "original_field_name_delimiter", some k! " ")]).isSome = false ∧
